@@ -65,6 +65,36 @@ def current(ctx):
     return out
 
 
+# functions that rewrite, in place, metadata their callers share (key-value entries, derived handle state): the set of
+# functions that call them is part of the design - a new caller makes that caller's argument change under its own callers
+WATCHED_MUTATORS = {
+    'writer.consolidate_categories': 'rewrites the pandas key-value entry of the metadata it is given',
+    'util.update_custom_metadata': 'rewrites the key-value list of the metadata / handle it is given',
+}
+
+
+def who_may_call_rule(ctx, rule):
+    """the callers of the watched in-place mutators are those of the reference tree"""
+    if not os.path.exists(REF):
+        return 0
+    ref = json.load(open(REF))
+    cur = current(ctx)
+    n = 0
+    for callee_, why in sorted(WATCHED_MUTATORS.items()):
+        ref_callers = {c for c, by in ref.items() if callee_ in by}
+        now = {c for c, by in cur.items() if callee_ in by}
+        for c in sorted(now):
+            n += 1
+            # (a nested function counts as its enclosing function, whichever way round)
+            known = c in ref_callers or any(c.startswith(r_ + '.') or r_.startswith(c + '.') for r_ in ref_callers)
+            mod, q = c.split('.', 1)
+            f = ctx.repo[mod].funcs.get(q)
+            ctx.ob(rule, '%s:calls-%s-as-on-the-reference-tree' % (c, callee_.split('.')[-1]), known,
+                   '%s %s; on the reference tree it is called from %s only' % (callee_, why, sorted(ref_callers)),
+                   ctx.repo[mod].loc(f) if f is not None else 'fastparquet/%s.py:1' % mod)
+    return n
+
+
 def dropped_argument_rule(ctx, rule, callers=None):
     if not os.path.exists(REF):
         ctx.note('%s: engine/callsigs.json missing, rule skipped' % rule)
@@ -530,6 +560,17 @@ def guard_conjunct_rule(ctx, rule, callers=None):
             except SyntaxError:
                 continue
             for t, node in new:
+                # the same, read as formulas: `x == 'a'` -> `x in ('a', 'b')` widens, `a or b` -> `a` narrows, however spelled
+                f_old, f_new = pathcond._strip(pathcond.formula(old_node)), pathcond._strip(pathcond.formula(node))
+                a_old, a_new = pathcond.atoms(f_old), pathcond.atoms(f_new)
+                if a_old and a_new and (a_old <= a_new or a_new <= a_old) and (a_old & a_new) and pathcond.equivalent(f_old, f_new) is False:
+                    wide, narrow = pathcond.implies(f_old, f_new), pathcond.implies(f_new, f_old)
+                    if wide is True or narrow is True:
+                        n += 1
+                        ctx.ob(rule, '%s:guard-`%s`-keeps-its-operands' % (name, old[:60]), False,
+                               'on the reference tree the guard is `%s`; now it is `%s`: the guarded code %s' % (
+                                   old[:90], t[:120], 'runs in more cases' if wide is True else 'runs in fewer cases'), m.loc(node))
+                        continue
                 for op, wider, narrower in ((ast.And, 'runs in more cases (a conjunct was dropped)', 'runs in fewer cases (a conjunct was added)'),
                                             (ast.Or, 'runs in fewer cases (an alternative was dropped)', 'runs in more cases (an alternative was added)')):
                     a, b = _operands(old_node, op), _operands(node, op)
